@@ -1,3 +1,3 @@
 _pending = "check under construction in this round; see DESIGN.md section 2 for the planned structural clauses"
-for _p in ["C17","C20"]:
+for _p in ["C20"]:
     NOT_APPLICABLE[_p] = _pending
